@@ -149,6 +149,7 @@ const REGIONS: &[(&str, &[&[u8; 4]])] = &[
 pub struct RunSpec {
     pub ver: char,            // 'G' | 'I'
     pub key: Option<(bool, Vec<u8>)>, // (base64?, key bytes)
+    pub spell: u8,            // hex spelling of the key argument: 0 lower case, 1 upper case, 2 mixed case
     pub nreq: usize,
     pub json: bool,
     pub kind: String,
@@ -164,6 +165,16 @@ pub struct RunResult {
     pub stderr: String,
     pub t0: String,
     pub t1: String,
+}
+
+/// the text given to `-k`
+pub fn spell_key(b64: bool, k: &[u8], spell: u8) -> String {
+    if b64 { return data_encoding::BASE64.encode(k); }
+    match spell {
+        1 => hex(k).to_uppercase(),
+        2 => hex(k).chars().enumerate().map(|(i, c)| if i % 3 == 0 { c.to_ascii_uppercase() } else { c }).collect(),
+        _ => hex(k),
+    }
 }
 
 fn client_bin() -> String {
@@ -192,8 +203,7 @@ pub fn run_client(spec: &RunSpec, respond: &mut dyn FnMut(usize, &[u8]) -> Vec<u
         cmd.arg("-n").arg(spec.nreq.to_string());
     }
     if let Some((b64, k)) = &spec.key {
-        let s = if *b64 { data_encoding::BASE64.encode(k) } else { hex(k) };
-        cmd.arg("-k").arg(s);
+        cmd.arg("-k").arg(spell_key(*b64, k, spec.spell));
     }
     cmd.env("RUST_BACKTRACE", "0");
     cmd.stdin(Stdio::null()).stdout(Stdio::piped()).stderr(Stdio::piped());
@@ -279,8 +289,7 @@ pub fn run_client_to_with(spec: &RunSpec, port: u16, after_spawn: &mut dyn FnMut
         cmd.arg("-n").arg(spec.nreq.to_string());
     }
     if let Some((b64, k)) = &spec.key {
-        let s = if *b64 { data_encoding::BASE64.encode(k) } else { hex(k) };
-        cmd.arg("-k").arg(s);
+        cmd.arg("-k").arg(spell_key(*b64, k, spec.spell));
     }
     cmd.env("RUST_BACKTRACE", "0");
     cmd.stdin(Stdio::null()).stdout(Stdio::piped()).stderr(Stdio::piped());
@@ -352,7 +361,7 @@ pub fn emit(out: &mut Out, spec: &RunSpec, r: &RunResult) {
     });
     let keyopt = match &spec.key {
         None => "none".to_string(),
-        Some((b64, k)) => format!("{}:{}", if *b64 { "b64" } else { "hex" }, hex(k)),
+        Some((b64, k)) => format!("{}:{}", if *b64 { "b64" } else { ["hex", "hexU", "hexM"][spec.spell as usize % 3] }, hex(k)),
     };
     let reqs = if r.requests.is_empty() { "~".into() } else { r.requests.iter().map(|x| hex(x)).collect::<Vec<_>>().join(",") };
     let resps = if r.responses.is_empty() { "~".into() } else { r.responses.iter().map(|x| hex(x)).collect::<Vec<_>>().join(",") };
@@ -402,7 +411,7 @@ pub fn run_honest(ctx: &Ctx) {
                         secs * 1_000_000 + sub
                     };
                     let key = match keymode { 0 => None, 1 => Some((false, pk_of(&rs.lt))), _ => Some((true, pk_of(&rs.lt))) };
-                    let spec = RunSpec { ver, key, nreq: 1, json: case_no % 5 == 0, kind: "honest".into() };
+                    let spec = RunSpec { ver, key, spell: 0, nreq: 1, json: case_no % 5 == 0, kind: "honest".into() };
                     let rs2 = rs.clone();
                     let res = run_client(&spec, &mut |_, req| rs2.ask(&mut d, req));
                     emit(&mut out, &spec, &res);
@@ -419,7 +428,7 @@ pub fn run_honest(ctx: &Ctx) {
             }
             let rs = base_resp(&mut r, ver);
             let key = Some((false, pk_of(&rs.lt)));
-            let spec = RunSpec { ver, key, nreq: k, json: false, kind: "honest".into() };
+            let spec = RunSpec { ver, key, spell: 0, nreq: k, json: false, kind: "honest".into() };
             let res = run_client(&spec, &mut |j, req| {
                 let mut x = rs.clone();
                 x.n = 4 + j;
@@ -427,6 +436,46 @@ pub fn run_honest(ctx: &Ctx) {
                 x.at = x.mine;
                 x.ask(&mut d, req)
             });
+            emit(&mut out, &spec, &res);
+        }
+    }
+    // key SPELLINGS: the text of `-k` must not matter beyond the bytes it encodes. Long-term seeds are searched so
+    // that the base64 text of the public key starts with a chosen pair of characters (every pair of "looks like
+    // something else" characters — radix markers, signs, separators — plus random pairs; thorough: 1024 more
+    // random pairs), and hex keys are also given in upper and mixed case (the client's decoder is permissive)
+    {
+        const B64: &[u8; 64] = b"ABCDEFGHIJKLMNOPQRSTUVWXYZabcdefghijklmnopqrstuvwxyz0123456789+/";
+        let odd: &[u8] = b"0xXbo+/A9z";
+        let mut pairs: Vec<(u8, u8)> = vec![];
+        for &a in odd { for &b in odd { pairs.push((a, b)); } }
+        for _ in 0..(if ctx.thorough { 1024 } else { 28 }) { pairs.push((B64[r.below(64) as usize], B64[r.below(64) as usize])); }
+        for (i, (a, b)) in pairs.into_iter().enumerate() {
+            let stream_seed = r.next();
+            if !out.mine() { out.skip(); continue; }
+            let ver = if i % 2 == 0 { 'I' } else { 'G' };
+            let mut rr = Rng::new(stream_seed);
+            let mut rs = base_resp(&mut rr, ver);
+            // search a seed whose public key's base64 text starts with (a, b)
+            let mut found = false;
+            for _ in 0..200_000 {
+                let t = data_encoding::BASE64.encode(&pk_of(&rs.lt));
+                if t.as_bytes()[0] == a && t.as_bytes()[1] == b { found = true; break; }
+                rs.lt = rr.bytes(32);
+            }
+            if !found { out.skip(); continue; }
+            rs.n = 1 + (i % 4); rs.mine = i % rs.n; rs.at = rs.mine;
+            let spec = RunSpec { ver, key: Some((true, pk_of(&rs.lt))), spell: 0, nreq: 1, json: false, kind: "honest".into() };
+            let rs2 = rs.clone();
+            let res = run_client(&spec, &mut |_, req| rs2.ask(&mut d, req));
+            emit(&mut out, &spec, &res);
+        }
+        for i in 0..(if ctx.thorough { 64 } else { 12 }) {
+            if !out.mine() { out.skip(); continue; }
+            let ver = if i % 2 == 0 { 'I' } else { 'G' };
+            let rs = base_resp(&mut r, ver);
+            let spec = RunSpec { ver, key: Some((false, pk_of(&rs.lt))), spell: 1 + (i / 2 % 2) as u8, nreq: 1, json: false, kind: "honest".into() };
+            let rs2 = rs.clone();
+            let res = run_client(&spec, &mut |_, req| rs2.ask(&mut d, req));
             emit(&mut out, &spec, &res);
         }
     }
@@ -460,7 +509,7 @@ pub fn run_forged(ctx: &Ctx) {
                         out.skip();
                         return;
                     }
-                    let spec = RunSpec { ver, key: key.clone(), nreq: 1, json: false, kind: kind.to_string() };
+                    let spec = RunSpec { ver, key: key.clone(), spell: 0, nreq: 1, json: false, kind: kind.to_string() };
                     let res = run_client(&spec, &mut |_, req| f(d, req));
                     emit(out, &spec, &res);
                 };
@@ -529,6 +578,56 @@ pub fn run_forged(ctx: &Ctx) {
                         wrap_wire(ver, &tv_encode(&f))
                     });
                 }
+                // an ADDITIONAL tag in one of the containers no signature covers (the top-level message, CERT): a value that
+                // SHADOWS a signed one must not be used (seeded change C01-r7: one lookup helper searching outermost-first)
+                {
+                    let shadow: &[(&[u8; 4], usize)] = &[(b"PUBK", 32), (b"ROOT", if ver == 'I' { 32 } else { 64 }), (b"MIDP", 8), (b"RADI", 4), (b"MINT", 8), (b"MAXT", 8), (b"DELE", 72), (b"VER\0", 4)];
+                    for (tag, len) in shadow {
+                        for level in ["top", "CERT"] {
+                            let t = tmpl.clone();
+                            let sb = r.next();
+                            let kind = format!("shadow-{}@{}", String::from_utf8_lossy(&tag[..]).trim_end_matches('\0'), level);
+                            one(&mut out, &mut d, &kind, &mut |d, req| {
+                                let honest = t.ask(d, req);
+                                let mut rr = Rng::new(sb);
+                                let val = match (rr.below(3), *len) { (0, 8) => (t.midp + 1_000_000).to_le_bytes().to_vec(), (1, 8) => 0u64.to_le_bytes().to_vec(), _ => rr.bytes(*len) };
+                                let mut f = tv_parse(&unwrap_wire(ver, &honest)).unwrap();
+                                if level == "top" {
+                                    if f.iter().any(|(x, _)| x == *tag) { return honest; }
+                                    f.push((**tag, val));
+                                    f.sort_by_key(|(x, _)| u32::from_le_bytes(*x));
+                                } else {
+                                    let mut c = tv_parse(&f.iter().find(|(x, _)| x == b"CERT").unwrap().1).unwrap();
+                                    if c.iter().any(|(x, _)| x == *tag) { return honest; }
+                                    c.push((**tag, val));
+                                    c.sort_by_key(|(x, _)| u32::from_le_bytes(*x));
+                                    *get_mut(&mut f, b"CERT").unwrap() = tv_encode(&c);
+                                }
+                                wrap_wire(ver, &tv_encode(&f))
+                            });
+                        }
+                    }
+                    // the attack the shadowing enables: SREP + SIG made with an attacker's online key, the GENUINE certificate,
+                    // and the attacker's online public key as a top-level PUBK
+                    let t = tmpl.clone();
+                    let mut attacker = tmpl.clone();
+                    attacker.lt = r.bytes(32);
+                    attacker.onl = r.bytes(32);
+                    one(&mut out, &mut d, "attacker-srep-genuine-cert-shadow-PUBK", &mut |d, req| {
+                        let genuine = t.ask(d, req);
+                        let alien = attacker.ask(d, req);
+                        let gf = tv_parse(&unwrap_wire(ver, &genuine)).unwrap();
+                        let mut af = tv_parse(&unwrap_wire(ver, &alien)).unwrap();
+                        let get = |f: &Fields, t: &[u8; 4]| f.iter().find(|(x, _)| x == t).unwrap().1.clone();
+                        let acert = tv_parse(&get(&af, b"CERT")).unwrap();
+                        let adele = tv_parse(&get(&acert, b"DELE")).unwrap();
+                        let apk = get(&adele, b"PUBK");
+                        *get_mut(&mut af, b"CERT").unwrap() = get(&gf, b"CERT");
+                        af.push((*b"PUBK", apk));
+                        af.sort_by_key(|(x, _)| u32::from_le_bytes(*x));
+                        wrap_wire(ver, &tv_encode(&af))
+                    });
+                }
                 // whole response in the other protocol's wire format
                 {
                     let mut t = tmpl.clone();
@@ -569,7 +668,7 @@ pub fn run_forged(ctx: &Ctx) {
                 // replay across runs: the previous genuine response of this protocol under ITS key
                 if let Some((lt, resp)) = prev_honest.get(&ver).cloned() {
                     if !out.mine() { out.skip(); } else {
-                        let spec = RunSpec { ver, key: Some((b64, pk_of(&lt))), nreq: 1, json: false, kind: "replay-previous-run".into() };
+                        let spec = RunSpec { ver, key: Some((b64, pk_of(&lt))), spell: 0, nreq: 1, json: false, kind: "replay-previous-run".into() };
                         let res = run_client(&spec, &mut |_, _| resp.clone());
                         emit(&mut out, &spec, &res);
                     }
@@ -577,7 +676,7 @@ pub fn run_forged(ctx: &Ctx) {
                 // the same replay with its PATH swapped for a value that is not a whole number of nodes
                 if let Some((lt, resp)) = prev_honest.get(&ver).cloned() {
                     if !out.mine() { out.skip(); } else {
-                        let spec = RunSpec { ver, key: Some((b64, pk_of(&lt))), nreq: 1, json: false, kind: "replay-previous-run-ragged-path".into() };
+                        let spec = RunSpec { ver, key: Some((b64, pk_of(&lt))), spell: 0, nreq: 1, json: false, kind: "replay-previous-run-ragged-path".into() };
                         let l = *r.pick(&[4usize, 12, 36, 100]);
                         let junk = r.bytes(l);
                         let body = unwrap_wire(ver, &resp);
@@ -590,7 +689,7 @@ pub fn run_forged(ctx: &Ctx) {
                 {
                     if !out.mine() { out.skip(); } else {
                         let t = tmpl.clone();
-                        let spec = RunSpec { ver, key: key.clone(), nreq: 2, json: false, kind: "replay-within-run".into() };
+                        let spec = RunSpec { ver, key: key.clone(), spell: 0, nreq: 2, json: false, kind: "replay-within-run".into() };
                         let mut first: Vec<u8> = vec![];
                         let res = run_client(&spec, &mut |j, req| {
                             if j == 0 { first = t.ask(&mut d, req); first.clone() } else { first.clone() }
@@ -610,7 +709,7 @@ pub fn run_forged(ctx: &Ctx) {
                         "second:CERT.SIG-bitflip", "second:SREP.MIDP-bitflip", "second:SIG-bitflip", "second:DELE.PUBK-rerand", "second:midp-after-window", "second:honest"];
                     for kind in kinds {
                         if !out.mine() { out.skip(); continue; }
-                        let spec = RunSpec { ver, key: key.clone(), nreq: 2, json: false, kind: if kind == "second:honest" { "honest".into() } else { kind.to_string() } };
+                        let spec = RunSpec { ver, key: key.clone(), spell: 0, nreq: 2, json: false, kind: if kind == "second:honest" { "honest".into() } else { kind.to_string() } };
                         let sb = r.next();
                         let res = run_client(&spec, &mut |j, req| {
                             if j == 0 { return honest_t.ask(&mut d, req); }
@@ -662,7 +761,7 @@ pub fn run_forged(ctx: &Ctx) {
                     if !out.mine() { out.skip(); } else {
                         let t = tmpl.clone();
                         let k = 40usize;
-                        let spec = RunSpec { ver, key: key.clone(), nreq: k, json: false, kind: "long-run-replay-first-to-last".into() };
+                        let spec = RunSpec { ver, key: key.clone(), spell: 0, nreq: k, json: false, kind: "long-run-replay-first-to-last".into() };
                         let mut first: Vec<u8> = vec![];
                         let res = run_client(&spec, &mut |j, req| {
                             if j == 0 { first = t.ask(&mut d, req); first.clone() }
@@ -675,7 +774,7 @@ pub fn run_forged(ctx: &Ctx) {
                 // remember a genuine response for the next group's cross-run replay
                 {
                     let t = tmpl.clone();
-                    let spec = RunSpec { ver, key: key.clone(), nreq: 1, json: false, kind: "honest".into() };
+                    let spec = RunSpec { ver, key: key.clone(), spell: 0, nreq: 1, json: false, kind: "honest".into() };
                     if out.mine() {
                         let mut saved: Vec<u8> = vec![];
                         let res = run_client(&spec, &mut |_, req| { saved = t.ask(&mut d, req); saved.clone() });
@@ -732,7 +831,8 @@ pub fn replay_one(out: &mut Out, args: &[&str]) {
         Some((m == "b64", unhex(h)))
     };
     let resps: Vec<Vec<u8>> = if args[4] == "~" { vec![] } else { args[4].split(',').map(unhex).collect() };
-    let spec = RunSpec { ver, key, nreq: resps.len().max(1), json: false, kind: args[2].to_string() };
+    let spell = if args[1].starts_with("hexU:") { 1 } else if args[1].starts_with("hexM:") { 2 } else { 0 };
+    let spec = RunSpec { ver, key, spell, nreq: resps.len().max(1), json: false, kind: args[2].to_string() };
     let res = run_client(&spec, &mut |j, _| resps.get(j).cloned().unwrap_or_default());
     emit(out, &spec, &res);
 }
